@@ -31,6 +31,14 @@ def diff_event(tid, a, b, differ, patcher, snapshot=True, extra=None):
         ev["praised"] = {"type": t, "where": w, "msg": str(e)[:200]}
     if snapshot and (canon_or_none(a) != a0 or canon_or_none(b) != b0):
         ev["mutated_after_patch"] = True
+    if "p" in ev:
+        # d is the value diff(a, b) returned: patch(a, d) must give b whenever it is evaluated, and d stays what it was
+        try:
+            ev["dAfter"] = enc_diff(d)
+            ev["p2"] = enc(to_plain(patcher(a, d)))
+        except Exception as e:  # noqa
+            t, w = exc_info(e)
+            ev["p2raised"] = {"type": t, "where": w, "msg": str(e)[:200]}
     return ev, d
 
 
